@@ -34,4 +34,6 @@ EdgeView == <<nalloc, nodes, H, E, armed, rc, EB, MB, gc, ist>>
 Emit == (Mode = "hist" /\ Len(hist) = MaxOps /\ Idle) => PrintT(<<"REPLAY", ToJson(hist)>>)
 
 RefSpec == Ref!Spec
+\* the sanity invariants of the reference, on the abstraction of the implementation state
+RefInv == Ref!TypeOK /\ Ref!NoDangling /\ Ref!WeakSound /\ Ref!EphSound /\ Ref!NestSound
 =============================================================================
